@@ -66,7 +66,35 @@ STATEFUL = [
       "main": "{% include 'inc' %}{% include 'inc' without context %}"}, "main", "state:include-namespace"),
     ({"m": "{% set ns = namespace(c=0) %}{% macro bump() %}{% set ns.c = ns.c + 1 %}{{ ns.c }}{% endmacro %}",
       "main": "{% import 'm' as m with context %}{{ m.bump() }}{{ m.bump() }}"}, "main", "state:import-with-context"),
+    # per-call filter arguments must not stick to the environment / process
+    ({"main": "{{ {'a': [1, 2], 'b': {'c': 3}}|tojson }}",
+      "other": "{{ {'a': [1, 2]}|tojson(indent=2) }}", "third": "{{ [1, {'x': 2}]|tojson(4) }}"},
+     "main", "state:filter-argument-sticks:tojson"),
+    ({"main": "{{ 'aaa bbb ccc ddd eee fff'|wordwrap }}|{{ 'x'|indent }}|{{ 'abc'|center }}|{{ 1234567|filesizeformat }}",
+      "other": "{{ 'aaa bbb ccc ddd eee fff'|wordwrap(7, false, '/') }}|{{ 'x\ny'|indent(2, true) }}|{{ 'abc'|center(9) }}|{{ 1234567|filesizeformat(true) }}"},
+     "main", "state:filter-argument-sticks:text"),
+    ({"main": "{{ 'a b c d e f g h i j k l'|truncate(9) }}|{{ [3, 1, 2]|sort }}|{{ 'x'|urlize }}|{{ 2.5|round }}",
+      "other": "{{ 'a b c d e f g h i j k l'|truncate(9, true, '!', 0) }}|{{ [3, 1, 2]|sort(reverse=true) }}|{{ 'http://a.b'|urlize(5, true, '_blank', 'x') }}|{{ 2.5|round(1, 'floor') }}"},
+     "main", "state:filter-argument-sticks:misc"),
 ]
+
+WORDS = "alpha beta gamma delta epsilon zeta eta theta iota kappa lambda mu nu xi omicron pi rho sigma tau"
+
+
+def filter_stress_cases():
+    """Templates that call the same filters with DIFFERENT arguments, for the
+    concurrent part: shared helper objects inside a filter show up as one
+    thread's arguments applied to another thread's call."""
+    out = []
+    for i, w in enumerate((7, 11, 16, 23, 31, 40)):
+        tpl = ("{% for i in range(12) %}{{ text|wordwrap(" + str(w) + ", " + ("true" if i % 2 else "false") +
+               ") }}|{{ text|truncate(" + str(w + 3) + ") }}|{{ text|indent(" + str(i) + ") }}|{{ text|center(" +
+               str(60 + w) + ") }}|{{ text|batch(" + str(i + 2) + ")|list|length }}|{{ nums|sort(reverse=" +
+               ("true" if i % 2 else "false") + ")|join(',') }}|{{ d|tojson(" + str(i) + ") }}{% endfor %}")
+        out.append({"kind": "stateful", "raw": {"main": tpl}, "main": "main", "key": "state:filter-stress",
+                    "data": {}, "globals": {},
+                    "rawdata": {"text": WORDS, "nums": [5, 3, 9, 1, 7], "d": {"k": [1, 2, {"z": i}]}}})
+    return out
 
 
 def stateful_case(i):
@@ -87,7 +115,11 @@ def names_of(case):
 
 
 def data_for(case, env):
-    return {} if "raw" in case else corpus.realize_data(case, env)
+    if "raw" in case:
+        import copy
+
+        return copy.deepcopy(case.get("rawdata", {}))
+    return corpus.realize_data(case, env)
 
 
 def isolated(case, name=None):
@@ -111,15 +143,16 @@ def check_sequential(ctx, case, rng):
         t = util.capture(lambda: env.get_template(n))
         if not t.ok:
             continue
-        before = (fp(data), fp(dict(env.globals)), fp(dict(t.value.globals)))
+        before = (fp(data), fp(dict(env.globals)), fp(dict(t.value.globals)), fp(dict(env.policies)))
         o = util.capture(lambda: t.value.render(data))
-        after = (fp(data), fp(dict(env.globals)), fp(dict(t.value.globals)))
+        after = (fp(data), fp(dict(env.globals)), fp(dict(t.value.globals)), fp(dict(env.policies)))
         ctx.ev()
         ctx.count("fingerprint_checks")
         ctx.count("repeat_compares")
         rec = {"case": case, "order": order}
         if before != after:
-            which = ["data", "env.globals", "template.globals"][[i for i in range(3) if before[i] != after[i]][0]]
+            which = ["data", "env.globals", "template.globals", "env.policies"][
+                [i for i in range(4) if before[i] != after[i]][0]]
             ctx.violation("mutates:" + which, f"{which} changed by rendering {n!r}: {before} -> {after}", rec)
             return
         if not same(base[n], o):
@@ -234,6 +267,7 @@ def run(ctx):
         if len(pool) >= 8:
             # thread-safe cases only: stateful imports are judged by the sequential part
             tcases = [c for c in pool if "raw" not in c or c["key"].startswith("state:")]
+            tcases += filter_stress_cases()
             if tcases:
                 check_threads(ctx, tcases, rng, nthreads=rng.choice([8, 12, 16]),
                               per_thread=6 if quick else 10, inject=True)
